@@ -587,6 +587,9 @@ class Configuration(_Configuration):
 
         # clearing the current configuration to be able to re-parse it
         self._clear()
+        # and what a previous reload which failed left in the section parsers (they are only cleaned up on
+        # success): the next, valid, file was refused with 'a process section called "x" already exists'
+        self._cleanup()
 
         if self._text:
             if not self.parser.set_text(fname):
